@@ -4,7 +4,9 @@ import (
 	"encoding/json"
 	"fmt"
 	"math"
+	"strconv"
 	"strings"
+	"vharness/internal/sess"
 
 	"github.com/paulsonkoly/calc/types/bytecode"
 	"github.com/paulsonkoly/calc/types/value"
@@ -28,6 +30,7 @@ func c11Values() []refsem.Val {
 		S(""), S("a"), S("ab"), S("é"), S("abc"),
 		A(), A(I(1)), A(F(1)), A(I(1), I(2)), A(A(I(1))), A(S("a")), A(fn), A(I(1), I(2), I(3)), A(refsem.Bool(true)),
 		fn, fn,
+		A(F(math.NaN())), A(A(F(0.5), F(math.NaN())), S("x")), A(I(1), fn),
 	}
 }
 
@@ -190,6 +193,14 @@ func c11Exec(payload string) (sig, detail string) {
 	}
 	if it.Op == "alias" {
 		return c11Alias(vals[0])
+	}
+	if it.Op == "compiled-index" {
+		impl.Init()
+		return c11CompiledIndex(vals[0], vals[1].I, vals[2].I)
+	}
+	if strings.HasPrefix(it.Op, "compiled:") {
+		impl.Init()
+		return c11Compiled(strings.TrimPrefix(it.Op, "compiled:"), vals[0], vals[1])
 	}
 	if strings.HasPrefix(it.Op, "law:") {
 		return c11Law(strings.TrimPrefix(it.Op, "law:"), vals)
@@ -537,6 +548,46 @@ func c11Run(w *core.W) {
 			w.Fail(c11Pay("alias", []refsem.Val{a}, c11Ref1{"V", i}), sig, detail)
 		}
 	}
+	// the same tuples through the compiler and the VM: operands bound to globals, the operator written in a program,
+	// alone, under one and two negations, inside an array literal and with the same variable on both sides
+	w.Family("compiled")
+	impl.Init()
+	for _, op := range c11BinOps {
+		for i, a := range vals {
+			for j, b := range vals {
+				key := c11Text("compiled:"+op, []refsem.Val{a, b})
+				if !w.Mine(key) {
+					continue
+				}
+				if a.K != refsem.KNil && b.K != refsem.KNil {
+					w.NonTrivial()
+				}
+				if sig, detail := c11Compiled(op, a, b); sig != "" {
+					w.Fail(c11Pay("compiled:"+op, []refsem.Val{a, b}, c11Ref1{"V", i}, c11Ref1{"V", j}), sig, detail)
+				}
+			}
+		}
+	}
+	// indexing and slicing written in programs: plain, with the bounds computed by calls (whose bodies use the temp
+	// register), to the right of a compound operand, and the slice laws as program text
+	w.Family("compiled-index")
+	for ci, c := range cs {
+		if _, ok := c11Lit(c); !ok || (c.K != refsem.KArr && c.K != refsem.KStr) {
+			continue
+		}
+		for i := -1; i <= 6; i++ {
+			for j := -1; j <= 6; j++ {
+				tuple := []refsem.Val{c, refsem.Int(i), refsem.Int(j)}
+				if !w.Mine(c11Text("compiled-index", tuple)) {
+					continue
+				}
+				w.NonTrivial()
+				if sig, detail := c11CompiledIndex(c, i, j); sig != "" {
+					w.Fail(c11Pay("compiled-index", tuple, c11Ref1{"C", ci}, c11Ref1{"lit", i}, c11Ref1{"lit", j}), sig, detail)
+				}
+			}
+		}
+	}
 	w.Family("laws")
 	for ci, c := range cs {
 		if c.K != refsem.KArr && c.K != refsem.KStr {
@@ -550,4 +601,136 @@ func c11Run(w *core.W) {
 			law("split-and-rejoin", []refsem.Val{c, refsem.Int(i)}, c11Ref1{"C", ci}, c11Ref1{"lit", i})
 		}
 	}
+}
+
+// c11Compiled evaluates `x OP y` in compiled programs with x and y bound to the two values.
+func c11Compiled(op string, a, b refsem.Val) (sig, detail string) {
+	if a.K == refsem.KNil || b.K == refsem.KNil {
+		return "", "" // any error satisfies the statement (binary family)
+	}
+	r, errc, dom := refsem.BinOp(op, a, b)
+	if dom != "" {
+		return "", ""
+	}
+	obs := func(v refsem.Val, e string) string {
+		if e != "" {
+			return "ERR " + e
+		}
+		return v.Canon()
+	}
+	not := func(v refsem.Val, e string) (refsem.Val, string) {
+		if e != "" {
+			return v, e
+		}
+		n, e2, _ := refsem.UnOp("!", v)
+		return n, e2
+	}
+	n1, e1 := not(r, errc)
+	n2, e2 := not(n1, e1)
+	pair, ep := refsem.Arr(r, n1), e1
+	if errc != "" {
+		ep = errc
+	}
+	type st struct{ src, want string }
+	x := "x " + op + " y"
+	sts := []st{
+		{x, obs(r, errc)},
+		{"!(" + x + ")", obs(n1, e1)},
+		{"!(!(" + x + "))", obs(n2, e2)},
+		{"[" + x + ", !(" + x + ")]", obs(pair, ep)},
+		{"t = !(" + x + ")", obs(n1, e1)},
+	}
+	if a.Canon() == b.Canon() || (a.K == refsem.KFn && b.K == refsem.KFn) {
+		rs, es, ds := refsem.BinOp(op, a, a)
+		if ds == "" {
+			sts = append(sts, st{"x " + op + " x", obs(rs, es)}, st{"id(x) " + op + " x", obs(rs, es)})
+		}
+	}
+	s := impl.NewSession()
+	s.M.SetGlobal("x", impl.FromRef(a))
+	s.M.SetGlobal("y", impl.FromRef(b))
+	s.M.SetGlobal("t", impl.FromRef(refsem.Int(0)))
+	pre := impl.ParseCached("id = (v) -> v")
+	s.RunTree(pre.Trees[0], 10000)
+	for _, c := range sts {
+		pr := impl.ParseCached(c.src)
+		if pr.Err != "" || pr.Panic != "" || pr.FuelOut != "" {
+			return "harness:generated-program-does-not-parse", c.src + ": " + pr.Err + pr.Panic
+		}
+		if s.Dead {
+			break
+		}
+		res := s.RunTree(pr.Trees[0], 100000)
+		got := res.Observed()
+		if i := strings.LastIndex(got, " | "); i >= 0 {
+			got = got[:i]
+		}
+		if got != c.want {
+			return "compiled-value-algebra:" + op + ":" + kinds([]refsem.Val{a, b}), fmt.Sprintf("with x = %s and y = %s the program `%s` gives %s, documented %s", a.Canon(), b.Canon(), c.src, got, c.want)
+		}
+	}
+	return "", ""
+}
+
+// c11Lit writes a value as a literal of the language (ints, strings, arrays of those).
+func c11Lit(v refsem.Val) (string, bool) {
+	switch v.K {
+	case refsem.KInt:
+		if v.I < 0 {
+			return "", false
+		}
+		return strconv.Itoa(v.I), true
+	case refsem.KStr:
+		return "\"" + strings.ReplaceAll(strings.ReplaceAll(v.S, "\"", "\\\""), "\n", "\\n") + "\"", true
+	case refsem.KArr:
+		parts := make([]string, len(v.A))
+		for i, e := range v.A {
+			p, ok := c11Lit(e)
+			if !ok {
+				return "", false
+			}
+			parts[i] = p
+		}
+		return "[" + strings.Join(parts, ", ") + "]", true
+	}
+	return "", false
+}
+
+// c11CompiledIndex runs the index and slice forms over the container c and the positions i, j as a program, on
+// the real VM and on the reference model.
+func c11CompiledIndex(c refsem.Val, i, j int) (sig, detail string) {
+	lit, _ := c11Lit(c)
+	n := func(k int) string {
+		if k < 0 {
+			return "(0 - " + strconv.Itoa(-k) + ")"
+		}
+		return strconv.Itoa(k)
+	}
+	I, J := n(i), n(j)
+	empty := "[]"
+	if c.K == refsem.KStr {
+		empty = "\"\""
+	}
+	stmts := []string{
+		"ln = (v) -> #v * 1 + 0",
+		"ar = (k) -> k + 0 * 1",
+		"c = " + lit,
+		"c[" + I + "]",
+		"c[" + I + ":" + J + "]",
+		"[c[ar(" + I + "):" + J + "], c[" + I + ":ar(" + J + ")], c[ar(" + I + "):ar(" + J + ")]]",
+		"1 * 2 + #c[" + I + ":ar(" + J + ")]",
+		"#c[ar(" + I + "):" + J + "] - 1 * 2",
+		empty + " + " + empty + " + c[" + I + ":ar(" + J + ")]",
+		"c[0:" + I + "] + c[" + I + ":ln(c)] == c",
+		"#c[0:" + I + "] + #c[" + I + ":ln(c)] == ln(c)",
+		"c[" + I + ":" + J + "] == c[0:" + J + "][" + I + ":ar(" + J + ")]",
+		"c[ar(" + I + ")]",
+		"1 * 2 + #[c[ar(" + I + ")]]",
+		"c",
+	}
+	o := sess.Compare(stmts, sess.Options{KeepGoing: true})
+	if o.Sig != "" {
+		return "compiled-index:" + o.Sig, fmt.Sprintf("c = %s, i = %d, j = %d: %s", lit, i, j, o.Detail)
+	}
+	return "", ""
 }
